@@ -384,12 +384,11 @@ var bceLine = regexp.MustCompile(`^(.+\.go):(\d+):(\d+): Found (IsInBounds|IsSli
 
 // bceTable: hand-discharged unproven bounds checks, keyed by function|expression; one line of reason each.
 var bceTable = map[string]string{
-	"store.checkUserFile|strings.TrimSuffix(filename,adminExt)":                          "inlined TrimSuffix slices s[:len(s)-len(suffix)] under HasSuffix(s, suffix)",
-	"store.checkUserFile|strings.TrimSuffix(filename,userExt)":                           "inlined TrimSuffix slices s[:len(s)-len(suffix)] under HasSuffix(s, suffix)",
-	"sasl.scanLengthEncodedString|data[0:strlen+2]":                                      "guarded by len(data[2:]) >= strlen on the only path reaching it",
-	"sasl.decodeLengthEncodedStrings|parts[i]":                                           "i starts at 0 and the loop breaks as soon as i >= len(parts); len(parts) >= 1 at both call sites",
-	"sasl.decodeLengthEncodedStrings|scanner.Bytes()[2:]":                                "every token returned by the split function is data[0:strlen+2], i.e. at least 2 bytes",
-	"sasl.encodeLengthEncodedStrings|binary.BigEndian.PutUint16(data,uint16(len(part)))": "data has 2+len(part) >= 2 bytes",
+	"store.checkUserFile|strings.TrimSuffix(filename)":                 "inlined TrimSuffix slices s[:len(s)-len(suffix)] under HasSuffix(s, suffix)",
+	"sasl.scanLengthEncodedString|data[:]":                             "the token slice: guarded by 'enough data' on the only path reaching it (the bound itself is decided by C13.1 split)",
+	"sasl.decodeLengthEncodedStrings|parts[]":                          "i starts at 0 and the loop breaks as soon as i >= len(parts); len(parts) >= 1 at both call sites",
+	"sasl.decodeLengthEncodedStrings|scanner.Bytes()[:]":               "every token returned by the split function is data[0:strlen+2], i.e. at least 2 bytes (C13.1 split and strip-and-count)",
+	"sasl.encodeLengthEncodedStrings|binary.BigEndian.PutUint16(data)": "data has 2+len(part) >= 2 bytes (C13.1 frame)",
 }
 
 func c023(c *an.Ctx, p *an.Prog) {
@@ -406,6 +405,7 @@ func c023(c *an.Ctx, p *an.Prog) {
 		parseFns := map[string]bool{"store.readHashStr": true, "store.argon2IDDecodeBase64": true, "store.scryptAuthDecodeBase64": true, "store.isFormatSupportedFull": true, "store.(*UserHash).Authenticate": true, "store.(*Argon2IDHasher).IsValid": true, "store.(*ScryptAuthHasher).IsValid": true, "store.(*Argon2IDHasher).Check": true, "store.(*ScryptAuthHasher).Check": true}
 		seen := map[string]bool{}
 		var parseHelpers map[string]bool
+		var inScope map[string]bool
 		for _, l := range strings.Split(string(out), "\n") {
 			m := bceLine.FindStringSubmatch(strings.TrimSpace(l))
 			if m == nil {
@@ -428,19 +428,69 @@ func c023(c *an.Ctx, p *an.Prog) {
 				// helpers (not part of the pinned decomposition) that the parse path calls count as parse path
 				parseHelpers = map[string]bool{}
 				for _, f := range p.RepoFns {
-					if !parseFns[strings.TrimPrefix(an.FnName(f), an.Module+"/")] && !parseFns[shortName(an.FnName(f))] {
+					if !parseFns[astFnName(f)] {
 						continue
 					}
 					for _, in := range an.DeepInstrs(f) {
 						if in.Parent() != f {
-							parseHelpers[shortName(an.FnName(in.Parent()))] = true
+							parseHelpers[astFnName(in.Parent())] = true
+						}
+					}
+				}
+			}
+			if inScope == nil {
+				// functions that handle hash files (reachable from authentication, listing, checking and the support
+				// test) or the sasl wire format (reachable from the connection handler and the codec entry points)
+				inScope = map[string]bool{}
+				var work []*ssa.Function
+				for _, f := range p.RepoFns {
+					n := astFnName(f)
+					switch {
+					case parseFns[n], n == "store.(*Dir).List", n == "store.(*Dir).ListFull", n == "store.(*Dir).Check", n == "store.(*Dir).Authenticate", n == "store.(*Dir).Exists", n == "store.(*Dir).IsAdmin":
+						work = append(work, f)
+					case an.FnPkgPath(f) == saslPkg && f.Parent() == nil && (ast.IsExported(f.Name()) || f.Name() == "handleConnection"):
+						work = append(work, f)
+					}
+				}
+				seenF := map[*ssa.Function]bool{}
+				for len(work) > 0 {
+					f := work[len(work)-1]
+					work = work[:len(work)-1]
+					if seenF[f] || !p.InRepo(f) {
+						continue
+					}
+					seenF[f] = true
+					inScope[astFnName(f)] = true
+					for _, b := range f.Blocks {
+						for _, in := range b.Instrs {
+							// static callees, goroutines, deferred calls, function values handed to the library
+							for _, op := range in.Operands(nil) {
+								if op == nil || *op == nil {
+									continue
+								}
+								switch v := (*op).(type) {
+								case *ssa.Function:
+									work = append(work, v)
+								case *ssa.MakeClosure:
+									if g, ok := v.Fn.(*ssa.Function); ok {
+										work = append(work, g)
+									}
+								}
+							}
+							if ci, ok := in.(ssa.CallInstruction); ok && ci.Common().IsInvoke() {
+								for _, e := range p.Callees(f, false) {
+									if e.Site == in {
+										work = append(work, e.Callee.Func)
+									}
+								}
+							}
 						}
 					}
 				}
 			}
 			switch {
-			case !strings.HasPrefix(fname, "store.") && !strings.HasPrefix(fname, "sasl."):
-				c.OK("C02.3", "bce|outside|"+key, fmt.Sprintf("%s:%d", m[1], line), "unproven by the compiler, but outside the hash-file store and the sasl codec: not on any path this property speaks about")
+			case !inScope[fname]:
+				c.OK("C02.3", "bce|outside|"+key, fmt.Sprintf("%s:%d", m[1], line), "unproven by the compiler, but in a function that neither the hash-file paths (authenticate, list, check, support test) nor the sasl codec reach: not on any path this property speaks about")
 			case parseFns[fname] || parseHelpers[fname]:
 				c.Fail("C02.3", "bce|"+key, fmt.Sprintf("%s:%d", m[1], line), "an index/slice operation in the hash-file parse path is not proven in bounds by the compiler: "+expr)
 			case ok:
@@ -560,7 +610,22 @@ func locateExpr(p *an.Prog, file string, line, col int, kind string) (string, st
 					score := token.Pos(rank)*1000000 + e.Pos()
 					if score >= best {
 						best = score
-						expr = exprSource(p, e)
+						// the operation and the operand it applies to; index/bound expressions are left out so that
+						// data[0:n+2] and data[:end] are the same site
+						switch x := e.(type) {
+						case *ast.SliceExpr:
+							expr = exprSource(p, x.X) + "[:]"
+						case *ast.IndexExpr:
+							expr = exprSource(p, x.X) + "[]"
+						case *ast.CallExpr:
+							expr = exprSource(p, x.Fun) + "("
+							if len(x.Args) > 0 {
+								expr += exprSource(p, x.Args[0])
+							}
+							expr += ")"
+						default:
+							expr = exprSource(p, e)
+						}
 					}
 				}
 				return true
@@ -836,4 +901,34 @@ func c025(c *an.Ctx, p *an.Prog, rule string) {
 		c.Undecided(rule, "base64-sites", "-", fmt.Sprintf("VACUOUS: %d base64 sites, confirmed floor 9 (8 record + 1 key)", n))
 	}
 	_ = sort.Strings
+}
+
+// astFnName names a function the way the compiler's diagnostics are attributed here: pkg.Func, pkg.(*T).Method,
+// pkg.(T).Method; closures carry their enclosing function's name.
+func astFnName(f *ssa.Function) string {
+	for f.Parent() != nil {
+		f = f.Parent()
+	}
+	if f.Pkg == nil {
+		return f.String()
+	}
+	pk := f.Pkg.Pkg.Name()
+	if f.Pkg.Pkg.Path() == mainPkg {
+		pk = "main"
+	}
+	if r := f.Signature.Recv(); r != nil {
+		t := r.Type()
+		star := ""
+		if pt, ok := t.(*types.Pointer); ok {
+			t = pt.Elem()
+			star = "*"
+		}
+		if n, ok := t.(*types.Named); ok {
+			if star != "" {
+				return pk + ".(*" + n.Obj().Name() + ")." + f.Name()
+			}
+			return pk + ".(" + n.Obj().Name() + ")." + f.Name()
+		}
+	}
+	return pk + "." + f.Name()
 }
